@@ -170,6 +170,10 @@ pub struct Gen<'a, 'd> {
     /// methods (indices into fns) whose bodies are complete: callable statically
     usable_methods: Vec<usize>,
     closure_depth: u32,
+    /// a value of trait-object type must be an existing variable (the type argument of a call is inferred from it)
+    force_dyn_var: bool,
+    /// a bounded type parameter is instantiated at a trait-object type when one qualifies
+    prefer_dyn_targ: bool,
 }
 
 fn is_printable_ty(t: &Ty) -> bool {
@@ -209,6 +213,8 @@ impl<'a, 'd> Gen<'a, 'd> {
             usable_traits: 0,
             usable_methods: vec![],
             closure_depth: 0,
+            force_dyn_var: false,
+            prefer_dyn_targ: false,
         }
     }
 
@@ -509,6 +515,10 @@ impl<'a, 'd> Gen<'a, 'd> {
     /// integers, string, bool — told apart at run time by their outermost shape
     fn impl_targets(&mut self) -> Vec<Ty> {
         let mut out = vec![Ty::i32(), Ty::Str, Ty::Bool];
+        // a trait-object type of an earlier (complete) trait: `impl Tr1 for dyn Tr0`
+        for t0 in self.dyn_traits() {
+            out.push(Ty::Dyn(t0));
+        }
         if self.cfg.wide_ints {
             out.push(Ty::Int(ALL_IK[1 + self.d.below(ALL_IK.len() - 1)]));
         }
@@ -592,7 +602,11 @@ impl<'a, 'd> Gen<'a, 'd> {
             let k = 1 + self.d.below(3);
             let mut done: Vec<Ty> = vec![];
             for _ in 0..k {
-                let cands = self.impl_targets();
+                let mut cands = self.impl_targets();
+                if done.is_empty() {
+                    // every trait has an implementing type that is not a trait object (bounds stay satisfiable)
+                    cands.retain(|t| !matches!(t, Ty::Dyn(_)));
+                }
                 let ty = cands[self.d.below(cands.len())].clone();
                 if done.iter().any(|x| Self::same_head(x, &ty)) {
                     continue;
@@ -607,6 +621,7 @@ impl<'a, 'd> Gen<'a, 'd> {
                 self.p.impls[impl_idx].methods = fs.clone();
                 self.usable_methods.extend(fs);
                 match &ty {
+                    Ty::Dyn(_) => self.label("impl:for-dyn-type"),
                     Ty::Adt(_, a) if !a.is_empty() => self.label("impl:generic-instance"),
                     Ty::Adt(..) => self.label("impl:adt"),
                     _ => self.label("impl:prim"),
@@ -722,7 +737,7 @@ impl<'a, 'd> Gen<'a, 'd> {
 
     /// implementing types of `tr` a trait object can be made from
     fn dyn_sources(&mut self, tr: usize) -> Vec<Ty> {
-        let all = self.implementors(&[tr]);
+        let all: Vec<Ty> = self.implementors(&[tr]).into_iter().filter(|t| !matches!(t, Ty::Dyn(_))).collect();
         let inst_ok = !all.iter().any(|t| matches!(t, Ty::Adt(_, a) if !a.is_empty())) || !self.gates.gated("dyn:generic-instance");
         all.into_iter().filter(|t| inst_ok || !matches!(t, Ty::Adt(_, a) if !a.is_empty())).collect()
     }
@@ -752,7 +767,7 @@ impl<'a, 'd> Gen<'a, 'd> {
     fn dyn_value(&mut self, tr: usize, fuel: i32) -> Expr {
         let vars: Vec<VarId> =
             self.visible().into_iter().filter(|(v, _)| self.var_ty(*v) == &Ty::Dyn(tr)).map(|(v, _)| v).collect();
-        if !vars.is_empty() && self.d.chance(150) {
+        if !vars.is_empty() && (self.force_dyn_var || self.d.chance(150)) {
             self.label("dyn:passed-on");
             return Expr::Var(vars[self.d.below(vars.len())]);
         }
@@ -812,7 +827,9 @@ impl<'a, 'd> Gen<'a, 'd> {
         for f in &self.usable_methods {
             let def = &self.p.fns[*f];
             if def.tparams == 0 {
-                if &def.ret == t {
+                let for_dyn = matches!(&self.p.impls[def.owner.unwrap_or(0)].for_ty, Ty::Dyn(_));
+                let recv_var = !for_dyn || self.visible().iter().any(|(v, _)| self.var_ty(*v) == &self.p.impls[def.owner.unwrap_or(0)].for_ty);
+                if &def.ret == t && recv_var {
                     cands.push(Cand::Static(*f));
                 }
             } else if !t.has_param() || self.cur_tparams > 0 {
@@ -858,7 +875,15 @@ impl<'a, 'd> Gen<'a, 'd> {
                 let extra: Vec<Ty> = def.params.iter().skip(1).map(|(_, t)| t.clone()).collect();
                 if im.trait_.is_some() {
                     self.label("method:trait-ufcs");
+                    // (the receiver of an impl for a trait-object type is a variable of that type:
+                    // a concrete value written there would select the impl for its own type)
+                    let was = self.force_dyn_var;
+                    if matches!(im.for_ty, Ty::Dyn(_)) {
+                        self.force_dyn_var = true;
+                        self.label("method:static-on-dyn-type");
+                    }
                     let recv = self.expr(&im.for_ty, fuel - 1);
+                    self.force_dyn_var = was;
                     let mut args = vec![recv];
                     args.extend(self.call_args(&extra, fuel));
                     Expr::Call(Callee::Method(f, MForm::TraitUfcs), args)
@@ -1626,7 +1651,12 @@ impl<'a, 'd> Gen<'a, 'd> {
         } else {
             self.label("call");
         }
+        let was = self.force_dyn_var;
+        if targs.iter().any(|t| matches!(t, Ty::Dyn(_))) {
+            self.force_dyn_var = true;
+        }
         let args = self.call_args(&ps, fuel);
+        self.force_dyn_var = was;
         Some(Expr::Call(Callee::Fn(f, targs), args))
     }
 
@@ -1636,9 +1666,20 @@ impl<'a, 'd> Gen<'a, 'd> {
         if bs.is_empty() {
             return self.ty(depth);
         }
-        let c = self.implementors(&bs);
+        let mut c = self.implementors(&bs);
+        // T = dyn Tr is inferred from an argument that is a variable of that type; the function's
+        // signature then must mention T only as the type of whole parameters
+        let def = &self.p.fns[f];
+        let plain = !def.ret.has_param() && def.params.iter().all(|(_, t)| !t.has_param() || matches!(t, Ty::Param(_)));
+        let visible: Vec<Ty> = self.visible().iter().map(|(v, _)| self.var_ty(*v).clone()).collect();
+        c.retain(|t| !matches!(t, Ty::Dyn(_)) || (plain && visible.contains(t)));
         self.label("generic-call:bounded");
-        c[self.d.below(c.len())].clone()
+        let dyns: Vec<Ty> = c.iter().filter(|t| matches!(t, Ty::Dyn(_))).cloned().collect();
+        let t = if self.prefer_dyn_targ && !dyns.is_empty() { dyns[self.d.below(dyns.len())].clone() } else { c[self.d.below(c.len())].clone() };
+        if matches!(t, Ty::Dyn(_)) {
+            self.label("generic-call:at-dyn-type");
+        }
+        t
     }
 
     /// calls of function values in scope returning `t`
@@ -2279,7 +2320,12 @@ impl<'a, 'd> Gen<'a, 'd> {
         if ret.has_param() {
             return None;
         }
+        let was = self.force_dyn_var;
+        if targs.iter().any(|t| matches!(t, Ty::Dyn(_))) {
+            self.force_dyn_var = true;
+        }
         let mut args = self.call_args(&ps, fuel);
+        self.force_dyn_var = was;
         if self.polyrec_fns.contains(&f) {
             // the recursion depth
             let n = self.d.below(4) as i128;
@@ -2622,7 +2668,7 @@ impl<'a, 'd> Gen<'a, 'd> {
                     bounds[k].push(t1);
                     if self.usable_traits > 1 && self.d.chance(70) {
                         let t2 = (t1 + 1) % self.usable_traits;
-                        if !self.implementors(&[t1, t2]).is_empty() {
+                        if self.implementors(&[t1, t2]).iter().any(|t| !matches!(t, Ty::Dyn(_))) {
                             bounds[k].push(t2);
                             self.label("generic-fn:two-bounds");
                         }
@@ -2802,6 +2848,47 @@ impl<'a, 'd> Gen<'a, 'd> {
                 if still_visible && is_printable_ty(&t) {
                     let s = self.show(&t, Expr::Var(v));
                     stmts.push(Stmt::Expr(Expr::Call(Callee::Builtin(Builtin::Println), vec![s]), false));
+                }
+            }
+        }
+        // a trait implemented for a trait-object type: make an object, call the impl's first method on it
+        // directly, and pass it to every bounded function that can take it (T = dyn Tr0)
+        for ii in 0..self.p.impls.len() {
+            let im = self.p.impls[ii].clone();
+            let (Some(t1), Ty::Dyn(t0)) = (im.trait_, im.for_ty.clone()) else { continue };
+            if im.methods.is_empty() || !self.d.chance(200) {
+                continue;
+            }
+            let before = self.scope.len();
+            let obj = self.dyn_value(t0, 2);
+            let dv = self.new_var(Ty::Dyn(t0), true);
+            let mut block = vec![Stmt::Let(Pat::Var(dv), Some(Ty::Dyn(t0)), obj)];
+            let f0 = im.methods[0];
+            let def = self.p.fns[f0].clone();
+            let extra: Vec<Ty> = def.params.iter().skip(1).map(|(_, t)| t.clone()).collect();
+            let mut args = vec![Expr::Var(dv)];
+            args.extend(self.call_args(&extra, 2));
+            let rv = self.new_var(def.ret.clone(), true);
+            block.push(Stmt::Let(Pat::Var(rv), Some(def.ret.clone()), Expr::Call(Callee::Method(f0, MForm::TraitUfcs), args)));
+            self.label("method:static-on-dyn-type");
+            for g in self.user_fns.clone() {
+                let gd = &self.p.fns[g];
+                if gd.bounds.iter().any(|b| b.contains(&t1)) && self.fn_nameable(g) && self.visible().iter().any(|(x, _)| *x == dv) {
+                    self.prefer_dyn_targ = true;
+                    if let Some(ss) = self.let_call_of(g, 2) {
+                        block.extend(ss);
+                    }
+                    self.prefer_dyn_targ = false;
+                }
+            }
+            stmts.extend(block);
+            let new_vars: Vec<VarId> = self.scope[before..].iter().map(|v| v.id).collect();
+            for v in new_vars {
+                let t = self.var_ty(v).clone();
+                let still_visible = self.visible().iter().any(|(x, _)| *x == v);
+                if still_visible && is_printable_ty(&t) {
+                    let sh = self.show(&t, Expr::Var(v));
+                    stmts.push(Stmt::Expr(Expr::Call(Callee::Builtin(Builtin::Println), vec![sh]), false));
                 }
             }
         }
